@@ -90,6 +90,17 @@ MUTANTS = [
      "    if first.python_name == second.name:\n        return PropertyError(", ["C09"]),
     ("c06", P + "config.py", "            field_prefix=config_file.field_prefix,", "            field_prefix=config_file.field_prefix.lower(),", ["C16"]),
     ("c07", P + "config.py", "        if config_file.post_hooks is not None:", "        if config_file.post_hooks:", ["C16"]),
+    # module / file name collisions (eighth batch)
+    ("d01", PP + "model_property.py", "        if schemas.module_name_taken(class_info):", "        if False and schemas.module_name_taken(class_info):", ["C09"]),
+    ("d02", PP + "schemas.py", "            if name != class_info.name and other is not None and other.module_name == class_info.module_name:",
+     "            if name == class_info.name and other is not None and other.module_name == class_info.module_name:", ["C09"]),
+    ("d03", PP + "schemas.py", "            if name != class_info.name and other is not None and other.module_name == class_info.module_name:\n                return True",
+     "            if name != class_info.name and other is not None and other.module_name == class_info.module_name:\n                break", ["C09"]),
+    ("d04", P + "parser/openapi.py", "                        for collection in collections\n                        for other in collection.endpoints\n                    ):",
+     "                        for collection in collections[1:]\n                        for other in collection.endpoints\n                    ):", ["C07", "C09"]),
+    ("d05", P + "parser/openapi.py", "                    module_name = utils.PythonIdentifier(endpoint.name, config.field_prefix)", "                    module_name = endpoint.name", ["C07", "C09"]),
+    ("d06", PP + "enum_property.py", "        if schemas.module_name_taken(class_info):", "        if schemas.module_name_taken(class_info) and False:", ["C09"]),
+    ("d07", PP + "schemas.py", "        for name, existing in self.classes_by_name.items():\n            other =", "        for name, existing in list(self.classes_by_name.items())[1:]:\n            other =", ["C09"]),
 ]
 
 
